@@ -405,6 +405,29 @@ def _judge_builders(ctx, rng, j):
         else:
             ctx.mark_nontrivial(dg(name, [bytes(s) for s in scripts]))
     s1, s2 = t_.make_adapter_locks_pub(pk, T, a_hex)
+    # the 0-byte message: every sigfield that is present is EMPTY
+    if j % 6 == 4:
+        empty = {f'sigfield{k}': b'' for k in
+                 rng.sample(range(1, 9), rng.choice((1, 1, 2, 8)))}
+        try:
+            w0 = t_.make_adapter_witness(seed, T, empty, f_hex)
+            sg0 = t_.decrypt_adapter(w0, tw)
+        except BaseException as e:
+            ctx.evaluated()
+            ctx.violation('adapter-builder-raised:empty-message',
+                          'make_adapter_witness / decrypt_adapter raise for '
+                          'sigfields that are present and empty (the 0-byte '
+                          f'message): {e!r}'[:200], dict(base, fields=empty,
+                                                         name='empty-message'))
+        else:
+            expect('locks_pub:empty-message:adapter-valid', [w0, s1], True,
+                   empty)
+            ctx.evaluated()
+            if len(sg0) != 64 or not E.verify(pk, b'', sg0):
+                ctx.violation('decrypt-adapter-invalid', 'decrypt_adapter() '
+                              'result is not a valid signature over the '
+                              '0-byte message', dict(base, fields=empty,
+                                                     name='empty-message'))
     wit = t_.make_adapter_witness(seed, T, fields, f_hex)
     expect('locks_pub:adapter-valid', [wit, s1], True)
     expect('locks_pub:adapter-by-other-signer',
